@@ -28,7 +28,7 @@ def run(repo_root, tier, only=None):
     import emu_base.math.pchip_torch as M
     assert os.path.realpath(M.__file__).startswith(os.path.realpath(repo_root) + os.sep), M.__file__
     fails, n = {}, 0
-    exps = {torch.float64: [0, 100, -100, 300, -300, 500, -500, 520, -520] + ([900, -900, 1000] if tier == "thorough" else []),
+    exps = {torch.float64: [0, 100, -100, 300, -300, 500, -500, 520, -520, 600, -600, -900] + ([900, -900, 1000] if tier == "thorough" else []),
             torch.float32: [0, 30, -30, 60, -60, 70, -70] + ([100, -100] if tier == "thorough" else [])}
     for dtype, es in exps.items():
         tol = 1e-11 if dtype == torch.float64 else 2e-5
